@@ -378,6 +378,12 @@ def main() -> None:  # noqa: C901
         log_event.exception("KeyboardInterrupt", "Test run manually aborted.")
         log_event.tbot_end(False)
         sys.exit(130)
+    except SystemExit as e:
+        # A testcase called sys.exit(): the run still ends with a verdict, like
+        # it does in newbot.
+        tbot.log.message("SystemExit triggered.")
+        log_event.tbot_end(e.code in (None, 0))
+        raise e
     else:
         log_event.tbot_end(True)
 
